@@ -9,6 +9,10 @@
 //	          that checks signatures with crypto/rsa, crypto/ecdsa, crypto/ed25519.
 //	findkey : the full product key set (<=3 / <=4 keys) x token kid x algorithm for the
 //	          pure function oidc.FindMatchingKey against refSelect.
+//
+// Further parts: alglist (alglist_test.go), reqobj (reqobj_test.go), reuse (reuse_test.go),
+// provopts / rpopts (constructor option subsets, provopts_test.go, rpopts_test.go),
+// rotate (histories on one remote key set with a changing published set, rotate_test.go).
 package c02
 
 import (
@@ -401,14 +405,16 @@ func findKeyCase(sp engine.Space, tab [][]fkSlot, v engine.Vec) engine.Result {
 
 func TestCheck(t *testing.T) {
 	c := engine.Start(t, "C02")
-	c.SetRule("E1. Part verify: full product {verifier entry point, serialisation mutation, signing algorithm, allowed-algorithm list} crossed with <=kA deviations of {token kid, key slots k1..k3, remote-cache state}, and full product {verifier, token kid, k1, k2, k3, cache} crossed with <=kB deviations of the rest; every vector executed on the real verifier in a synctest bubble. Part alglist: the same space with the allowed-algorithm list family (single members, only-unusable, mixed, duplicates, unknown / near-miss names, empty) in full product with verifier, mutation and algorithm. Part reqobj: full product entry point x outer client x object iss x client_id claim x signing key x kid scheme for the request-object verifier. Part reuse: all call sequences <=3 on one JWT-profile verifier. Part findkey: full product token kid x algorithm x key set (each slot: absent or kid x use x key type) on oidc.FindMatchingKey. distinct = (part, oracle rule, observed outcome class)")
+	c.SetRule("E1. Part verify: full product {verifier entry point, serialisation mutation, signing algorithm, allowed-algorithm list} crossed with <=kA deviations of {token kid, key slots k1..k3, remote-cache state}, and full product {verifier, token kid, k1, k2, k3, cache} crossed with <=kB deviations of the rest; every vector executed on the real verifier in a synctest bubble. Part alglist: the same space with the allowed-algorithm list family (single members, only-unusable, mixed, duplicates, unknown / near-miss names, empty) in full product with verifier, mutation and algorithm. Part reqobj: full product entry point x outer client x object iss x client_id claim x signing key x kid scheme for the request-object verifier. Part provopts: full product of every ordered subset of the four key-set / verifier options of op.NewProvider x consumer of the two provider verifiers x signer generation x algorithm x kid. Part rpopts: the same for the verifier-related options of rp.NewRelyingPartyOIDC x discovery algorithm list. Part rotate: all histories of 3 (thorough 4) steps (served JWKS document x token) on one long-lived remote key set, every step judged. Part reuse: all call sequences <=3 on one JWT-profile verifier. Part findkey: full product token kid x algorithm x key set (each slot: absent or kid x use x key type) on oidc.FindMatchingKey. distinct = (part, oracle rule, observed outcome class)")
 	c.Assume("reference signature checks use crypto/rsa, crypto/ecdsa, crypto/ed25519 directly; the Go standard library is trusted",
 		"library default allowed list (nothing configured) is RS256, ES256, PS256 as documented",
 		"a configured non-empty allowed list is read literally (JOSE names are case-sensitive strings; no trimming, no splitting); a list without any member a public key can verify allows nothing; an empty non-nil list is open between 'default' and 'nothing' (only algorithms outside the default must be refused)",
 		"the configured key set of a request object is the set of keys registered for the client_id of the authorization request that carries it; without an outer client_id an object that names its signer consistently is judged Either",
 		"well-formed single-signature JSON serialisations, white space in or around the compact form, and key choices that depend on the reading of 'type fits' (EC curve) or 'kid consistent' (kid-less published key for a kid-bearing token, duplicate kids) are judged Either",
 		"the static key set of the harness selects with oidc.FindMatchingKey and verifies with VerifyMulti, i.e. it relies on CheckSignature for the exactly-one-signature rule",
-		"keys registered for a client are handed out by the storage by kid (refstore / harness key storage); use and kid rules are only demanded for published sets")
+		"keys registered for a client are handed out by the storage by kid (refstore / harness key storage); use and kid rules are only demanded for published sets",
+		"the configured key set of a remote key set at the time of a call is the JWKS document its endpoint serves now or served at the last successful download; keys of earlier documents that have been withdrawn are not trusted",
+		"a provider verifier without a key-set option uses the key set of the storage, without a verifier option the library default list (as the option comments document)")
 	buildAllTokens(verifyAlgs)
 	sanity(c)
 
@@ -442,6 +448,9 @@ func TestCheck(t *testing.T) {
 	t0 = time.Now()
 	if on("provopts") {
 		provoptsPart(c, t)
+	}
+	if on("rpopts") {
+		rpoptsPart(c, t)
 	}
 	c.Extra("provopts_wall_s", time.Since(t0).Seconds())
 	t0 = time.Now()
